@@ -3,6 +3,7 @@ package traversal
 import (
 	"errors"
 	"fmt"
+	"reflect"
 
 	"github.com/ipld/go-ipld-prime/datamodel"
 	"github.com/ipld/go-ipld-prime/linking"
@@ -485,7 +486,7 @@ func (prog Progress) walkTransforming(n datamodel.Node, s selector.Selector, fn 
 		if err != nil {
 			return nil, err
 		}
-		if new_n != n {
+		if !sameNode(new_n, n) {
 			// don't continue on transformed subtrees
 			return new_n, nil
 		}
@@ -501,6 +502,20 @@ func (prog Progress) walkTransforming(n datamodel.Node, s selector.Selector, fn 
 	default:
 		return n, nil
 	}
+}
+
+// sameNode reports whether the transform function handed back the very node it was given.
+// Node implementations need not be comparable (a bytes node may be a byte slice type), and
+// comparing two such interface values panics; those are treated as replaced.
+func sameNode(a, b datamodel.Node) bool {
+	if a == nil || b == nil {
+		return a == nil && b == nil
+	}
+	ta := reflect.TypeOf(a)
+	if ta != reflect.TypeOf(b) || !ta.Comparable() {
+		return false
+	}
+	return a == b
 }
 
 func contains(interest []datamodel.PathSegment, candidate datamodel.PathSegment) bool {
